@@ -318,3 +318,54 @@ def jobs(tier, seed):
 
 
 harness("C08.struct", jobs, sym, conc)
+
+
+# ------------------------------------------------------------------ the same operations on a lazily selected operand (relational)
+def _view_ops():
+    return {"concat": lambda d: np.concatenate([d, d]), "zeros_like": lambda d: np.zeros_like(d), "padded": lambda d: (d.as_padded_matrix(fill_value=-7) if d.size else ("empty",)),
+            "nonzero": lambda d: np.nonzero(d), "where": lambda d: np.where(d > 0, d, 0), "where_xy": lambda d: np.where(mk_ragged(type(d), [True] * int(d.size), [int(x) for x in common.cells(d.shape[1])] if not common.SYMBOLIC else common.cells(d.shape[1]), "bool"), d, 0),
+            "rslice": lambda d: __import__("npstructures").ragged_slice(d, None, np.full(len(d), 1)), "subset": lambda d: d.subset(d > 0)}
+
+
+def sym_onview(E, p, kf):
+    import z3
+    from symx import specs
+    from . import programs
+    from npstructures import RaggedArray
+    R = E.concretize(E.int("R", 0, p["R"]))
+    lens = [E.int(f"l{r}", 0, p["L"]) for r in range(R)]
+    S = E.concretize(z3.Sum(lens) if lens else z3.IntVal(0))
+    data = [E.int(f"d{q}", -50, 50) for q in range(S)]
+    P = programs.ParamStore(E, B=2)
+    case = dict(p=p, lens=lens, data=data, params=P.values)
+    od, of, oa = programs.on_view(RaggedArray, lens, data, "int64", p["pre"], _view_ops()[p["op"]], P)
+    if od["k"] != of["k"]:
+        return dict(goal=False, got=od, case=case)
+    goal = specs.conj([specs.obs_goal(od, of) if od["k"] != "raise" else True, specs.obs_goal(oa, dict(k="ragged", flat=data, lens=lens, dtype="int64"))])
+    return dict(goal=goal, got=od, case=case)
+
+
+def conc_onview(case):
+    from . import programs
+    from npstructures import RaggedArray
+    p = case["p"]
+    P = programs.ParamStore(None, dict(case["params"]), B=2)
+    od, of, oa = programs.on_view(RaggedArray, case["lens"], case["data"], "int64", p["pre"], _view_ops()[p["op"]], P)
+    if od["k"] == "raise" and of["k"] == "raise":
+        of = common.refused()
+    return od, of, {"float_eq": True}
+
+
+def jobs_onview(tier, seed):
+    from . import programs
+    q = tier == "quick"
+    out = []
+    for op in _view_ops():
+        for pre in programs.VIEW_STEPS:
+            if q and pre in ("colstepm2", "colslice_a") and op not in ("sum0", "concat", "cumsum"):
+                continue
+            out.append(dict(R=3, L=2 if q else 3, pre=pre, op=op))
+    return [dict(h="C08.onview", p=p) for p in out]
+
+
+harness("C08.onview", jobs_onview, sym_onview, conc_onview)
